@@ -530,6 +530,13 @@ def run(model: RepoModel, rep, tier: str):
                         "field i (the top-down phase works on copies of the summaries), and the kinds of state-flow edges and nodes are distinct numbers", 4)
     check_positional_records(model, rep, "C10.R11", ["common_structs.py"] + sorted(r for r in model.modules if r.startswith("core/")))
     check_enum_distinct(model, rep, "C10.R11", "config/constants.py", ["SFG_EDGE_KIND", "SFG_NODE_KIND", "STATE_TYPE_KIND"])
+    from .. import generic4
+    rep.rule("C10.R12", "a rule restricted to a line matches the statement on that line: every comparison with rule.line_num is against the 0-based "
+                        "row + 1, the offset stored in SFGNode.line_no included", 6)
+    generic4.check_rule_line_offsets(model, rep, "C10.R12")
+    rep.rule("C10.R13", "every pending node of the propagation is processed: the membership set of the worklist holds the queued elements themselves, "
+                        "not a coarser key", 1)
+    generic4.check_worklist_membership(model, rep, "C10.R13")
     # ------------------------------------------------------------------ R10 the graph is read-only for the taint phase
     rep.rule("C10.R10", "the taint phase writes only to objects it creates: an attribute store on a local is a store into an object constructed in "
                         "that function or returned to it by a method of the phase that constructs it -- never into a node, an edge weight or a rule "
